@@ -12,6 +12,8 @@ from . import tr
 from .common import (cfg_of, node_obj, is_method_call, F3, product_dicts, fde_guard, inside_with_calling,
                      facts_at, find_stmt_node, derives_from, get_kw, name_defs, recv_of, only_reached_from)
 
+from .common import Guard  # noqa: E402
+
 PROP = 'C07'
 DECIDED = [
     'R1: a call of ConfigNode.ayns._require_safe on self dominates every execution sink (import_name, eval/exec/compile, __import__, import_module, a call/partial of the node target) in every ayns.on_evaluate_impl and the helpers it reaches; package-wide inventory of such primitives.',
@@ -630,16 +632,19 @@ def r7(repo, run):
 
 
 def check(repo, run, tier):
+    g = Guard()
     tr.reset()
-    covered = r1(repo, run)
-    r1b(repo, run, covered)
-    r2(repo, run)
-    r3(repo, run)
-    r4(repo, run)
-    r5(repo, run)
-    r6(repo, run)
-    r7(repo, run)
-    mr.propagation_table(repo, run, 'C07.R7', 'safe')
+    covered = g(r1, repo, run)
+    if covered is not None:
+        g(r1b, repo, run, covered)
+    g(r2, repo, run)
+    g(r3, repo, run)
+    g(r4, repo, run)
+    g(r5, repo, run)
+    g(r6, repo, run)
+    g(r7, repo, run)
+    g(mr.propagation_table, repo, run, 'C07.R7', 'safe')
+    g.done()
 
 
 def mutants(repo):
